@@ -537,11 +537,28 @@ func staticScenarios(seed uint64, dst []bool, maxLocal, maxNew int) []Scenario {
 // on chain A, block A5 is fetched but held back; the source then replaces A4.. by B4..; the node
 // stores B4 (it extends A3); then A5 arrives.
 func raceScenario(seed uint64, dstNew bool) Scenario {
-	five := uint64(5)
-	return Scenario{Kind: "race", Seed: seed, SrcNew: seed%2 == 0, DstNew: dstNew, Procs: 4, Prestore: 3, StartEpoch: 0,
-		Epochs:   []EpochSpec{{Add: 10}, {Depth: 6, Add: 6}},
-		Triggers: []Trigger{{AfterServed: &five}},
-		Faults:   Faults{Rules: []Rule{{Height: 4, Epoch: 0, Action: "fail"}, {Height: 5, Epoch: 0, Action: "hold", UntilStores: 2}}}}
+	r := lib.NewRNG(seed)
+	pre := r.Range(1, 5) // the node holds A0..A(pre-1) and syncs A(pre) first
+	n := uint64(pre + 1) // B_n is stored on top of A(pre); A(n+1) is the stale successor
+	held := n + 1
+	procs := lib.Pick(r, []int{2, 4, 0})
+	k := 18 + r.Intn(3) // blocks of chain A above A(pre): enough to switch to parallel fetchers
+	return Scenario{Kind: "race", Seed: seed, SrcNew: seed%2 == 0, DstNew: dstNew, Procs: procs, Prestore: pre, StartEpoch: 0,
+		Epochs:   []EpochSpec{{Add: pre + 1 + k}, {Depth: k, Add: r.Range(2, 6)}},
+		Triggers: []Trigger{{AfterServed: &held}},
+		Faults:   Faults{Rules: []Rule{{Height: n, Epoch: 0, Action: "fail"}, {Height: held, Epoch: 0, Action: "hold", UntilStores: 2}}}}
+}
+
+// wrongNumScenario: the source's chain became a shorter fork (A0..A(c-1), B_c); the node holds
+// A0..A(a-1). revertTask reverts down to c and then asks for block c-1, which both chains share;
+// that one request is answered with block c.
+func wrongNumScenario(seed uint64, dstNew bool) Scenario {
+	r := lib.NewRNG(seed)
+	a := r.Range(4, 8)
+	c := r.Range(2, a-2)
+	return Scenario{Kind: "wrongnum", Seed: seed, SrcNew: seed%2 == 1, DstNew: dstNew, Procs: lib.Pick(r, []int{1, 2, 0}), Prestore: a, StartEpoch: 1,
+		Epochs: []EpochSpec{{Add: a}, {Depth: a - c, Add: 1}},
+		Faults: Faults{Rules: []Rule{{Height: uint64(c - 1), Epoch: 1, Action: "wrong-num", Times: 1}}}}
 }
 
 func dynamicScenario(r *lib.RNG, i int) Scenario {
@@ -638,6 +655,7 @@ func main() {
 		}
 		for i := 0; i < f.Scale(4, 40); i++ {
 			scs = append(scs, raceScenario(f.Seed*77+uint64(i), i%2 == 0))
+			scs = append(scs, wrongNumScenario(f.Seed*79+uint64(i), i%2 == 1))
 		}
 	}
 	// group by GOMAXPROCS (a process-wide setting)
@@ -740,6 +758,9 @@ func main() {
 		if cr.sc.Kind == "dynamic" {
 			res.Sample(6, map[string]any{"scenario": cr.sc, "commits": cr.hits["commit:stored"] + cr.hits["commit:reverted"]})
 		}
+	}
+	if f.Thorough() && f.Replay == "" && os.Getenv("C06_CHILD") == "" {
+		runRaceChild(f, res)
 	}
 	lib.Finish(f, res)
 }
